@@ -111,6 +111,9 @@ def catalogue(h):
     vals = [
         None, h.MARKER, h.NA, h.REMOVE, True, False,
         0, 1, -1, 2, 2 ** 70, 0.0, -0.0, 1.0, 0.5, 1.0000004, 1.000002, 1e308, float('inf'), float('-inf'), float('nan'),
+        # large numbers: the tolerance is absolute (1e-6), never relative
+        4096.0, 4096.000002, 4096.0000004, 1234567.0, 1234567.001, 1e15, 1e15 + 1, 1592000000000, 1592000000001.0, -1e9, -1e9 - 0.5,
+        Q(4096.0, 'kW'), Q(4096.000002, 'kW'), C(1234.0, 2.0), C(1234.000002, 2.0),
         's', '', 'n:1', 'S', h.Uri('s'), h.Uri(''), h.Uri('t'), h.Bin('s'), h.Bin(''), h.Bin('text/plain'),
         R('s'), R('s', 'Dis'), R('s', ''), R('s', None, True), R('t'), R('s', 's'),
         X('hex', 'deadbeef'), X('b64', '3q2+7w=='), X('hex', ''), X('foo', 'deadbeef'), X('foo', 's'), X('bar', 's'),
@@ -278,7 +281,7 @@ def build_grid(h, meta, cols, rows, version='3.0'):
 def grids(ctx, h, enc, rng, corr):
     import pytz
     Q, C = h.Quantity, h.Coordinate
-    cells = [1, 1.0, 1.0000004, 1.5, True, 's', h.Uri('s'), h.Bin('s'), h.Ref('s'), h.Ref('s', 'd'), Q(1, 'kg'), Q(1.0000004, 'kg'), Q(1, 'm'),
+    cells = [1, 1.0, 1.0000004, 1.5, 4096.0, 4096.000002, 1234567.0, 1234567.001, 1e15, 1e15 + 1, True, 's', h.Uri('s'), h.Bin('s'), h.Ref('s'), h.Ref('s', 'd'), Q(1, 'kg'), Q(1.0000004, 'kg'), Q(1, 'm'),
              C(1.0, 2.0), C(1.0000004, 2.0), C(1.1, 2.0), datetime.date(2020, 1, 1), datetime.time(1, 2, 3), datetime.time(1, 2, 3, 400000),
              pytz.utc.localize(datetime.datetime(2020, 1, 1)), None, h.MARKER, h.NA, [1], {'a': 1}, h.XStr('hex', '00'), float('inf')]
     base_meta = {'m': 's'}
